@@ -230,7 +230,7 @@ def replay_path(world: World, path, want_key=None, want_digests=None):
 
 
 def explore(world: World, *, max_states=2_000_000, max_depth=None, procs=1, validate_stride=211,
-            check_cycles=True, cycle_clause=None, n_samples=2, progress=None) -> Result:
+            check_cycles=True, cycle_clause=None, n_samples=2, progress=None, validate_terminals=200) -> Result:
     """Level-synchronous BFS. ``cycle_clause`` = (property, clause) to report non-progress cycles."""
     t0 = time.time()
     setup_process()
@@ -255,8 +255,8 @@ def explore(world: World, *, max_states=2_000_000, max_depth=None, procs=1, vali
             if max_depth is not None and d >= max_depth:
                 res.cap_hit = True
                 break
-            if pool is not None and len(frontier) >= 4 * procs:
-                n = max(1, min(64, len(frontier) // (procs * 4)))
+            if pool is not None and len(frontier) >= 2:
+                n = max(1, min(64, -(-len(frontier) // (procs * 4))))
                 chunks = [frontier[i:i + n] for i in range(0, len(frontier), n)]
                 results = []
                 for part in pool.imap(_pool_expand, chunks):
@@ -333,7 +333,7 @@ def explore(world: World, *, max_states=2_000_000, max_depth=None, procs=1, vali
 
         canon.verify_consts()
         # root-replay validation: terminals, violating states, stride of interior states
-        to_validate = set(terminal_idx[:200])
+        to_validate = set(terminal_idx[:validate_terminals])
         to_validate.update(i for (_, i, _, _) in res.violations)
         to_validate.update(range(0, len(index), validate_stride))
         for i in sorted(to_validate):
